@@ -61,10 +61,10 @@ PROPS = {
         assumptions=['Layer B faults on access to unallocated/freed nodes and on reading moved-out or uninitialised payloads; aliasing-model UB is outside the model (DESIGN.md 6, 9.1)',
                      'the monitor ri_check (proved sound: C07_monitor_sound) is evaluated on the pointer graph the dangling-safe hook walker reports after every step; bucket addresses of surviving entries must be stable unless the table was rebuilt', 'bsim: the extracted pointer-level public operation stepB (B/StepB.v, proved to refine stepA: C07_public_ops_refine) is run on the observed pointer graph before each step, with the bucket addresses hashbrown chose, and must produce exactly the links and recorded sizes observed after it; brefine: its result, events and abstract final state must be the ones Layer A computed for that step'],
     ),
-    'C08': dict(engine='memsize_check', comps=[],
+    'C08': dict(engine='memsize_check', comps=[], directed=['c08_zero_len_arrays'],
         theorems=['C08_bulk', 'C08_mem', 'C08_container', 'C08_wrapper', 'C08_depth', 'C08_depth_empty_sections', 'C08_flat_iterator'],
         assumptions=['no Mutex/RwLock is poisoned (DESIGN.md 9.4)', 'iterators handed to the bulk helpers are pure']),
-    'C09': dict(engine='memsize_check', comps=[],
+    'C09': dict(engine='memsize_check', comps=[], directed=['c09_pathbuf_capacity', 'c09_contended_lock'],
         theorems=['C09_exact', 'C09_upper', 'C09_map', 'C09_set', 'C09_ref'],
         assumptions=['no Mutex/RwLock is poisoned (DESIGN.md 9.4)']),
     'C10': dict(
